@@ -89,7 +89,10 @@ def pow2_axioms(formulas, hints=()):
   if len(es) <= 48:
     for a, b in itertools.combinations_with_replacement(es, 2):
       s = z3.simplify(a + b)
-      if s.sexpr() in exps:
+      if z3.is_int_value(s) and -64 <= s.as_long() <= 64:
+        k = s.as_long()
+        ax.append(I.POW2(a) * I.POW2(b) == (z3.RealVal(2 ** k) if k >= 0 else z3.RealVal("1/%d" % (2 ** -k))))
+      elif s.sexpr() in exps:
         ax.append(I.POW2(a) * I.POW2(b) == I.POW2(exps[s.sexpr()]))
   return ax
 
@@ -117,9 +120,33 @@ def log2_axioms(formulas):
   return ax
 
 
+def monotone_fn_axioms(formulas):
+  """tanh and sigmoid: strictly increasing, bounded (ground instances over the terms present)."""
+  ax = []
+  for name, lo, hi in (("tanh", -1, 1), ("sigmoid", 0, 1)):
+    ts = {}
+    for t in apps_of(formulas, name):
+      ts[t.arg(0).sexpr()] = t
+    ts = list(ts.values())
+    for t in ts:
+      ax.append(z3.And(t > lo, t < hi))
+      if name == "tanh":
+        ax.append(z3.Implies(t.arg(0) >= 0, t >= 0))
+        ax.append(z3.Implies(t.arg(0) <= 0, t <= 0))
+      else:
+        ax.append(z3.Implies(t.arg(0) >= 0, t * 2 >= 1))
+        ax.append(z3.Implies(t.arg(0) <= 0, t * 2 <= 1))
+    for a, b in itertools.combinations(ts, 2):
+      ax.append(z3.Implies(a.arg(0) < b.arg(0), a < b))
+      ax.append(z3.Implies(b.arg(0) < a.arg(0), b < a))
+      ax.append(z3.Implies(a.arg(0) == b.arg(0), a == b))
+  return ax
+
+
 def all_axioms(formulas, hints=()):
   ax = pow2_axioms(formulas, hints)
   ax += log2_axioms(formulas + ax)
+  ax += monotone_fn_axioms(formulas)
   return ax
 
 
